@@ -9,6 +9,7 @@ A cell is (label, source, expected output lines).
 
 LADDER_SMALL = list(range(1, 41))
 LADDER_BIG = [48, 64, 65, 100, 128, 129, 200, 250]
+RUNGS = {2, 3, 8, 15, 16, 17, 18, 31, 32, 33, 34, 40}
 
 
 def _junk(n, tag):
@@ -57,12 +58,18 @@ def exit_locals_fn(fname, kind, n, caps):
 
 def exit_locals_program(n, rot, every_position=False, kinds=("break", "continue", "end", "block")):
     pats = capture_patterns(n, rot)
-    if every_position:
+    if n > 40:      # a dense pattern costs n closures (= n functions to verify): above 40 the sparse ones (thorough: and ONE dense one)
+        pats = [x for x in pats if len(x[1]) == 1 or (every_position is None and x[0] == ("even", "odd", "lowhalf", "allbutdeep")[rot % 4])]
+    elif every_position is False:      # quick tier: the sparse patterns + two of the five dense ones, rotating with the size and the seed
+        dense = [x for x in pats if len(x[1]) > 1]
+        pick = {dense[rot % len(dense)][0]} if dense and n in RUNGS else set()
+        pats = [x for x in pats if len(x[1]) == 1 or x[0] in pick]
+    if every_position is True:
         pats = [("one%d" % p, [p]) for p in range(n)] + [x for x in pats if not x[0].startswith("one") and len(x[1]) > 1]
     src, exp, k = [], [], 0
     for kind in kinds:
         for name, caps in pats:
-            if kind in ("end", "block") and name not in ("deep", "even", "all"):
+            if kind in ("end", "block") and name not in ("deep", pats[-1][0]):
                 continue
             s, e = exit_locals_fn("f%d" % k, kind, n, caps)
             src.append(s + "\nprint(f%d());" % k)
@@ -148,15 +155,16 @@ def nested_fns_program(d):
 def try_depth_program(d, exitkind):
     """d nested try/catch (no finally, no return inside try: those are the OPEN classes) inside a loop; the innermost
     body throws / breaks / continues; every level has a captured local"""
+    caps = {0, d - 1} | set(range(0, d, 3))
     o = "fn f() { var fs = []; var n = 0; var i = 0; while i < 3 { i = i + 1;"
     for k in range(d):
-        o += "try { var a%d = i * 100 + %d; fs.push(|| a%d);" % (k, k % 7, k)
+        o += "try { var a%d = i * 100 + %d;" % (k, k % 7) + ("fs.push(|| a%d);" % k if k in caps else "")
     o += {"throw": "throw 1;", "break": "if i == 2 { break; }", "continue": "if i < 9 { continue; }", "fall": ""}[exitkind]
     for k in range(d):
         o += "} catch e { n = n + e; throw e + 1; }" if k < d - 1 else "} catch e { n = n + e; }"
     o += "} var z0 = -1; var z1 = -2; var z2 = -3; var s = 0; for f in fs { s = s + f(); } return s * 100000 + n; }\nprint(f());"
     iters = (1, 2) if exitkind == "break" else (1, 2, 3)
-    s = sum(i * 100 + (k % 7) for i in iters for k in range(d))
+    s = sum(i * 100 + (k % 7) for i in iters for k in caps)
     n = 3 * (d * (d + 1) // 2) if exitkind == "throw" else 0
     return o, [str(s * 100000 + n)]
 
@@ -232,11 +240,11 @@ def scale_cells(rot, quick):
     big = LADDER_BIG
     for n in LADDER_SMALL + big:
         kinds = ("break", "continue", "end", "block") if n <= 40 else ("break", "continue", "end")
-        s, e = exit_locals_program(n, rot + n, every_position=(not quick and n <= 40), kinds=kinds)
+        s, e = exit_locals_program(n, rot + n, every_position=(False if quick else (True if n <= 40 else None)), kinds=kinds)
         cells.append(("scale:exit_locals:%d" % n, s, e))
     for d in LADDER_SMALL + [64, 100, 200]:
-        for kind in ("break", "continue", "end"):
-            if quick and d > 40 and kind == "end":
+        for j, kind in enumerate(("break", "continue", "end")):
+            if quick and d > 3 and ((d + rot + j) % 3 == 0 or (d > 40 and kind == "end")):
                 continue
             s, e = nested_scopes_program(d, kind)
             cells.append(("scale:nested_scopes_%s:%d" % (kind, d), s, e))
@@ -261,7 +269,9 @@ def scale_cells(rot, quick):
     for d in LADDER_SMALL + [50, 60]:
         cells.append(("scale:nested_fns:%d" % d,) + nested_fns_program(d))
     for d in LADDER_SMALL:
-        for ek in ("throw", "break", "continue", "fall"):
+        for j, ek in enumerate(("throw", "break", "continue", "fall")):
+            if quick and d > 3 and (d + rot + j) % 2:
+                continue
             cells.append(("scale:try_depth_%s:%d" % (ek, d),) + try_depth_program(d, ek))
     for d in range(1, 13):
         for ek in ("break", "continue", "fall"):
@@ -368,16 +378,16 @@ def tie_cells(rot, quick):
         else:
             for kind in ("break", "continue", "end", "block"):
                 for j, (name, caps) in enumerate(pats):
-                    if kind in ("break", "continue") or j % 3 == 0:
+                    if (kind in ("break", "continue") and (len(caps) == 1 or (j + n + rot) % 2)) or (kind in ("end", "block") and j % 4 == 0):
                         fs.append(compact_exit_fn("f%s%d" % (kind[0], j), kind, n, caps))
         cells.append(("scale_tie:exit_locals:%d" % n, "\n".join(fs), None))
     for (label, src, exp) in scale_cells(rot, quick):
         dim, size = label.split(":")[1], int(label.rsplit(":", 1)[1])
-        if dim == "exit_locals" or len(src) > (4000 if quick else 16000):
+        if dim == "exit_locals" or len(src) > (3000 if quick else 6000):
             continue
         if quick and size not in TIE_SIZES:
             continue
-        if quick and dim.startswith(("nested_scopes", "try_depth", "params", "upvalues", "deep_loops", "exits_per_loop", "logic_chain")) and (size + rot + len(dim)) % 2 and size > 3:
+        if quick and dim.startswith(("params", "upvalues", "deep_loops", "exits_per_loop", "logic_chain")) and (size + rot + len(dim)) % 2 and size > 3:
             continue        # these come in 3-4 variants per size: every second size per variant, rotating with the seed
         cells.append(("scale_tie:" + label.split(":", 1)[1], src, exp))
     return cells
